@@ -71,6 +71,10 @@ func govcHostileCorpus() []govcHostile {
 		{"findnode-uses-self", []string{hdr("m") + "grouping g { uses g; leaf x { type string; } } container c { uses g; leaf z { type leafref { path \"../x\"; } } } }"}, true},
 		{"findnode-uses-missing", []string{hdr("m") + "container c { uses nosuch; leaf z { type string; } } }"}, true},
 		{"included-submodule-of-absent-module", []string{"submodule s { belongs-to nosuch { prefix n; } identity a; identity b { base a; } leaf l { type identityref { base a; } } }", hdr("m") + "include s; }"}, true},
+		{"field-name-as-keyword-under-module", []string{hdr("m") + "Parent foo; }"}, true},
+		{"field-names-as-keywords", []string{hdr("m") + "container c { Parent foo; Statement bar; } rpc r { input { Name baz; } } }"}, true},
+		{"ninth-lexer-error-is-a-backslash-at-the-end", []string{"module m { description \"\\q\\q\\q\\q\\q\\q\\q\\q\\"}, true},
+		{"ninth-lexer-error-is-a-backslash-before-a-line-break", []string{"a \"\\1\"; b \"\\2\"; c \"\\3\"; d \"\\4\"; e \"\\5\"; f \"\\6\"; g \"\\7\"; h \"\\8\"; i \"x\\\n  y\";"}, true},
 		{"empty", []string{""}, false},
 		{"only-comment", []string{"// nothing\n/* at all */"}, false},
 		{"unterminated-string", []string{"module m { namespace \"urn:m; prefix m; }"}, true},
